@@ -638,6 +638,13 @@ def step2(line):
                 k, v = kv.split('=')
                 fields[k] = None if v == 'N' else unhx(v).decode('utf-8')
         return hx(M.TagBlock.create(**fields))
+    if cmd == 'cycle_msg':
+        m = getattr(M, p[1]).from_bitarray(parse_bits(p[2]))
+        try:
+            sents = ENC.encode_msg(m, talker_id='AIVDM', radio_channel='B')
+        except Exception:  # noqa
+            return 'SKIP'          # not re-encodable: reported by the to_bitarray part of the check
+        return canon_msg(pyais.decode(*sents))
     if cmd == 'reencode':
         return show_bits(getattr(M, p[1]).from_bitarray(parse_bits(p[2])).to_bitarray())
     if cmd == 'create':
